@@ -1,4 +1,5 @@
 """C10 - dispatch is the same under every RTTI flavour (claimed in part)."""
+import re
 from .. import common, crules
 
 
@@ -15,6 +16,7 @@ def check(run):
         crules.merge_rules(run, None, r2, ast)
         crules.publish_range_rules(run, r2, ast)
         crules.record_vptr_rules(run, r2, ast)
+        crules.hash_sizing_rules(run, r2, ast)
         crules.hash_rules(run, None, None, None, None, r2, ast) if False else _allids(run, r2, ast)
         crules.deferred_rules(run, "C10-oneshot", r3, r4, ast)
     run.assumptions += ["equality of dispatch results across flavours is a run-time comparison: not decided; these are the places where a flavour-specific id could be lost"]
@@ -52,6 +54,44 @@ using namespace c10k;
     for ob, ok, msg in e3.run_unit(run, "C10-kinds", ku):
         if not ok:
             run.violation("C10-kinds", ob["key"], "%s: %s" % (ob["desc"], msg), "include/yorel/yomm2/detail.hpp")
+    # final's "is this object of exactly the static class" test is a statement about CLASSES: with several ids per class it must go
+    # through Policy::type_index like every other class-identity decision, not compare raw ids
+    from .. import astq
+    fsrc, _ = callpath.unit_source("debug", ["r", "V"])
+    fast = astq.Ast(common.ast_json(run, fsrc, "c10_final", ndebug=False, funcs="virtual_ptr<"))
+    nfin = 0
+    for f in fast.funcs:
+        if not f.get("body") or not re.search(r"virtual_ptr<.*>::final<", f["name"]):
+            continue
+        dyn, stat = set(), set()
+        for x in astq.walk(f["body"]):
+            if x.get("k") == "DeclStmt":
+                for d in x["decls"]:
+                    if d.get("init") is None:
+                        continue
+                    cs = [(y.get("callee") or "") for y in astq.walk(d["init"]) if y.get("k") in ("CallExpr", "CXXMemberCallExpr")]
+                    if any("::dynamic_type<" in c for c in cs):
+                        dyn.add(d["did"])
+                    elif any("::static_type<" in c for c in cs):
+                        stat.add(d["did"])
+        if not dyn or not stat:
+            continue
+        nfin += 1
+        raw = []
+        for x in astq.walk(f["body"]):
+            if x.get("k") == "IfStmt":
+                for c in astq.walk(x["cond"]):
+                    if c.get("k") == "BinaryOperator" and c.get("op") in ("!=", "=="):
+                        sides = [astq.strip(y) for y in c["c"]]
+                        if all(y is not None and y.get("k") == "DeclRefExpr" for y in sides) and {("d" if y["ref"]["did"] in dyn else "s" if y["ref"]["did"] in stat else "?") for y in sides} == {"d", "s"}:
+                            # a raw comparison is fine as a shortcut when the same condition also consults type_index
+                            if not any((z.get("callee") or "").endswith("::type_index") for z in astq.walk(x["cond"]) if z.get("k") in ("CallExpr", "CXXMemberCallExpr")):
+                                raw.append(c)
+        run.instance(r1, "%s: 'object of exactly the static class' is decided on classes (type_index), not raw ids" % crules.short(f)[:100], (f["file"], f["line"]), ok=not raw)
+        for c in raw:
+            run.violation(r1, "virtual_ptr::final|raw-id-comparison", "final compares the raw dynamic and static type ids (`%s`): an object that carries another id of the SAME class (many-to-one type_index) is reported as a method-table error under checked policies" % astq.text(c)[:60], (f["file"], c.get("l", f["line"])))
+    if nfin == 0:
+        run.broken.append("C10: no instantiation of virtual_ptr::final with its type check in the unit")
     from .. import crules as _cr
     _cr.facet_rules(run, "C10-facets")
     return run.finish(level="other", explanation="AST / CFG rules: who-must-wrap rule on class_map keys, control-dependence whitelist of the id-list append, loop-nest rule "
